@@ -26,6 +26,11 @@ namespace Givaro {
     inline typename Poly1Dom<Domain,Dense>::Rep& Poly1Dom<Domain,Dense>::stdmul(
         Rep& R, const Rep& P, const Rep& Q ) const
     {
+        if ((&R == &P) || (&R == &Q)) { // the product is written while P and Q are still being read
+            Rep tmp; init(tmp);
+            stdmul(tmp, P, Q);
+            return assign(R,tmp);
+        }
         const size_t sP = P.size();
         const size_t sQ = Q.size();
         if ((sQ ==0) || (sP ==0)) { R.resize(0); return R; }
@@ -44,6 +49,11 @@ namespace Givaro {
     inline typename Poly1Dom<Domain,Dense>::Rep& Poly1Dom<Domain,Dense>::karamul(
         Rep& R, const Rep& P, const Rep& Q ) const
     {
+        if ((&R == &P) || (&R == &Q)) { // the product is written while P and Q are still being read
+            Rep tmp; init(tmp);
+            karamul(tmp, P, Q);
+            return assign(R,tmp);
+        }
         const size_t sP = P.size();
         const size_t sQ = Q.size();
         if ((sQ ==0) || (sP ==0)) { R.resize(0); return R; }
